@@ -1027,7 +1027,7 @@ func TestVerif(t *testing.T) {
 	r := vlib.NewRand(env.Seed)
 	budget := time.Duration(env.BudgetMs) * time.Millisecond
 	deadline := time.Now().Add(budget)
-	if env.Thorough() {
+	if env.Thorough() && !raceEnabled {
 		deadline = time.Now().Add(budget / 2)
 	}
 	maxCases := 5000
@@ -1037,7 +1037,7 @@ func TestVerif(t *testing.T) {
 	for i := 0; i < maxCases && time.Now().Before(deadline); i++ {
 		c.check(genScenario(r.Fork(), res))
 	}
-	if env.Thorough() {
+	if env.Thorough() && !raceEnabled { // the -race binary runs the random scenarios only
 		c.repeats = 6
 		end := time.Now().Add(budget / 2)
 		ex := c.exhaustive(1, 0, 5, end) && c.exhaustive(1, 1, 5, end) && c.exhaustive(2, 0, 4, end) && c.exhaustive(2, 1, 4, end)
